@@ -15,7 +15,11 @@ META = {
     "rule": ("Hypothesis draws (method, dtype, shape C1..3 x Z,Y,X 1..7, "
              "elements biased to type limits, factors, outside value); "
              "non-trivial = an odd axis that is downscaled or a block with "
-             ">= 2 distinct values; distinct by the whole case."),
+             ">= 2 distinct values; distinct by the whole case."
+             " Also: the 'auto' method, six memory layouts, warm-ups of th"
+             'e same downscaler object on other data types, permuted axes '
+             'and chunk shapes whose intermediate shapes collide; huge: wh'
+             'ole-volume sized arrays (> 2^25 voxels).'),
     "trusted_base": ["vlib/refs/downscale_ref.py, dtype_ref.py (Fractions)"],
     "assumptions": ["finite values; float32 results compared within 1 ulp"],
 }
